@@ -208,13 +208,9 @@ def specContainsStr (s : SSeq) (needle : List Int) : Except Err SVal :=
 
 /-! ### known-finding predicates -/
 
-/-- C13-K01: `bytes` implements no `len`, indexing, slicing, iteration or repetition at all. -/
-def kfBytesOp (k : Kind) (op : String) : Bool :=
-  k == .bytes && (op == "get" || op == "len" || op == "iter" || op == "mul" || op == "rmul")
-
-/-- C13-K02: lists and tuples implement no ordering comparison (`<`, `<=`, `>`, `>=`). -/
-def kfSeqOrder (a b : Kind) (op : CmpOp) : Bool :=
-  a == b && (a == .list || a == .tuple) && !(op == .eq || op == .ne)
+/- C13-K01 (bytes had no len/indexing/iteration/repetition) and C13-K02 (no list/tuple ordering) were
+repaired by `fix:` commits in the extension round; their predicates are gone, the full theorems
+(`bytes_ops_spec`, `order_spec`) replace the `_witness` theorems. -/
 
 /-- C13-K03: a plain index that does not fit int64 raises OverflowError (Python: IndexError). -/
 def kfBigIndex (i : Idx) : Bool :=
